@@ -326,26 +326,36 @@ func c18FlateReader(r *eng.Run) {
 	case 2:
 		c1 = append([]byte{0xff, 0xff, 0xff}, c1...) // corrupt input
 	}
-	byteReader := r.T.Bool(sim.LCfg)
-	mk := func(b []byte) io.Reader {
-		if byteReader {
+	// The two lives may differ in whether the source is an io.ByteReader
+	// (the library takes another path for those).
+	byteReader1, byteReader := r.T.Bool(sim.LCfg), r.T.Bool(sim.LCfg)
+	mkk := func(b []byte, br bool) io.Reader {
+		if br {
 			return bytes.NewReader(b)
 		}
 		return struct{ io.Reader }{bytes.NewReader(b)}
 	}
-	fr := wsflate.NewReader(mk(c1), flateDtor)
+	mk := func(b []byte) io.Reader { return mkk(b, byteReader) }
+	var first io.Reader = mkk(c1, byteReader1)
+	if r.T.Chance(sim.LCfg, 1, 5) {
+		first = nil // documented: NewReader(nil, ...) then Reset
+		mode1 = 4
+	}
+	fr := wsflate.NewReader(first, flateDtor)
 	buf := make([]byte, drawBuf(r))
-	if mode1 == 3 {
+	switch mode1 {
+	case 3:
 		fr.Read(buf[:minInt(len(buf), 3)]) // stop mid-stream
-	} else {
+	case 4:
+	default:
 		io.Copy(io.Discard, fr)
 	}
-	if r.T.Bool(sim.LHist) {
+	if mode1 != 4 && r.T.Bool(sim.LHist) {
 		fr.Close()
 	}
 	fr.Reset(mk(c2))
 	fresh := wsflate.NewReader(mk(c2), flateDtor)
-	r.Note("C18 wsflate.Reader.Reset first life mode=%d (%d bytes) second life %d bytes byteReader=%v", mode1, len(m1), len(m2), byteReader)
+	r.Note("C18 wsflate.Reader.Reset first life mode=%d (%d bytes) second life %d bytes byteReader %v->%v", mode1, len(m1), len(m2), byteReader1, byteReader)
 	r.Res.Nontrivial = true
 	da, ta := readAllTranscript(fr, len(buf))
 	db, tb := readAllTranscript(fresh, len(buf))
